@@ -456,6 +456,14 @@ func C07(c *core.Ctx) {
 	for k := 0; k < 40; k++ { // a byte order mark in front (of a journal, of garbage, of nothing)
 		texts = append(texts, "\ufeff"+texts[rng.Intn(len(texts))])
 	}
+	// special bytes in the first position(s) and at the very end: NUL and other control characters, a lone
+	// continuation byte, a truncated multi-byte lead, vertical tab / form feed, the replacement character
+	for _, pre := range []string{"\x00", "\x00\n", "\x01", "\x7f", "\x80", "\xc3", "\xe2\x82", "\x0b", "\x0c", "\ufffd", "\x00\x00", "\u2028", "\u00a0"} {
+		for k := 0; k < 3; k++ {
+			base := texts[rng.Intn(len(texts))]
+			texts = append(texts, pre+base, base+pre, pre)
+		}
+	}
 	texts = append(texts, "\ufeff", "\ufeff\n", "a\ufeffb", "", "\n", "\xff", "#é", "#é\n", "//€ x\n2020-01-01 open Assets:A\n", "#é\nx\n2023-01-01 open Assets:A\n",
 		"2020-01-01 open Assets:"+strings.Repeat("Ab", 60000)+"\n", strings.Repeat("# c\n", 20000), "2020-01-01 \""+strings.Repeat("é", 100000)+"\"\nAssets:A Assets:B 1 CHF\n")
 	seen := map[string]bool{}
